@@ -174,6 +174,8 @@ def scn_text(root, reporter, mode, log):
     else:
         out.append("# test processes end with exit()")      # keeps the line numbers the same in every mode
 
+    scripted = set()
+
     def emit(n, parent):
         if isinstance(n, Suite):
             out.append("S %d %s %s %d %d" % (n.sid, n.name, "-" if parent is None else parent.sid,
@@ -182,6 +184,9 @@ def scn_text(root, reporter, mode, log):
                 emit(c, n)
         else:
             out.append("T %d %s %d %d %d %d" % (n.tid, n.name, parent.sid, n.skip, n.ctx_setup, n.ctx_teardown))
+            if n.tid in scripted:
+                return          # the same test registered in another suite: its script is already there
+            scripted.add(n.tid)
             for ph, acts in (("s", n.setup), ("b", n.body), ("t", n.teardown)):
                 for a in acts:
                     out.append("a %d %s %s" % (n.tid, ph, act_scn(a)))
